@@ -26,6 +26,15 @@ CHECKS["C15"] = dict(
     engine="tlc+replay",
 )
 
+CHECKS["C14"] = dict(
+    category="model_checking",
+    text="The SortFull action of Placement.tla (sort.rs) is model-checked by TLC against the ideal relation of the property (same elements, grouped by kind, ascending names within a kind) and idempotence from every reachable placement state; every exported transition is replayed on real models, where the relations of the property (== content per element, written order, reload equality and order, text idempotence) are evaluated directly on the real objects; random documents with interleaved sort() calls are validated by TLC trace validation, with the ideal trace specification as the judge when the implementation-shaped one rejects.",
+    design_ref="DESIGN.md §4.4, §4.6, §6 C14",
+    note="One MODULE, list kinds + comments in the model (other module children are present in the recorded documents but projected out of the order comparison; they are covered by the ==/reload/idempotence relations); bounded state space.",
+    technique="TLA+ spec (Placement.tla, SortFull) model-checked with TLC; TLC-generated transitions replayed into the real code; recorded histories validated against Trace_Placement.tla / Trace_PlacementIdeal.tla",
+    engine="tlc+replay",
+)
+
 PENDING = "check not built yet in this round; planned per DESIGN.md §6 (no claim made until the TLA+ module and its binding exist)"
 NOT_APPLICABLE = {}
 
